@@ -52,6 +52,22 @@ Theorem C08_depth_named : forall t, all_named t = true ->
 Proof. exact depth_named. Qed.
 Print Assumptions C08_depth_named.
 
+(* True nesting: as long as no fall-through happens (F08b) and no name is empty (F08d), the counted depth IS the
+   number of active _parse_schema frames, so the peaks coincide ... *)
+Theorem C08_nesting_is_depth : forall md tops,
+  guard_F08b md tops = true -> forallb names_truthy tops = true ->
+  let c := run_list (init md) tops in g_peak_nest c = g_peak c.
+Proof. exact nesting_is_depth. Qed.
+Print Assumptions C08_nesting_is_depth.
+
+(* ... and when moreover every frame is named (F08a excluded), recursion IS cut at the configured limit:
+   never more than limit + 1 nested _parse_schema frames. *)
+Theorem C08_nesting_named_bounded : forall md tops,
+  guard_F08b md tops = true -> forallb all_named tops = true ->
+  g_peak_nest (run_list (init md) tops) <= md + 1.
+Proof. exact nesting_named_bounded. Qed.
+Print Assumptions C08_nesting_named_bounded.
+
 (* F08a: anonymous frames are never depth-checked: for EVERY limit there is a tree nesting deeper than
    limit + 1 for which no depth placeholder is produced (nesting and counted depth grow without bound). *)
 Theorem C08_refuted_F08a : forall md, exists t,
